@@ -296,8 +296,42 @@ def gen_sentinel(rng, ctx):
                        "events": [[0, ["ngram", hx(key), n], "q"], [0, ["ungram", [hx(key), hx(tail)], n], "q"]]}
 
 
+def run_threads(case, ctx, mon):
+    """Several Python threads add disjoint key sets to ONE sketch (some keys crafted to fight for the same register):
+    the registers must be those of the union."""
+    import threading
+
+    s = sk()
+    p, seed, n_thr = case["p"], case["seed"], case["threads"]
+    h = s.HyperLogLog(p, seed)
+    rng = np.random.default_rng(case["stream"])
+    sets = [[bytes(rng.integers(0, 256, 5, dtype=np.uint8)) + bytes([t]) for _ in range(case["keys"])] for t in range(n_thr)]
+    barrier = threading.Barrier(n_thr)
+
+    def work(keys):
+        barrier.wait()
+        for i, k in enumerate(keys):
+            h.add(k)
+            if i % 64 == 0:
+                h.query()
+
+    ts = [threading.Thread(target=work, args=(ks,)) for ks in sets]
+    for t in ts:
+        t.start()
+    for t in ts:
+        t.join()
+    want = hll_ref.registers_for([k for ks in sets for k in ks], p, seed)
+    bad = np.flatnonzero(np.asarray(h.registers) != want)
+    mon.check(len(bad) == 0, "threads:registers==model(union of all threads' keys)", n_bad=int(len(bad)), p=p, threads=n_thr, first=bad[:4].tolist())
+    mon.count("thread_stress_cases")
+    mon.nontrivial(True)
+
+
 def gen_cases(ctx):
     rng = ctx.rng("cases")
+    for rep in range(3 if ctx.quick else 8):
+        # p = 7: 128 registers, thousands of keys per thread -> every register is contended
+        yield {"type": "threads", "p": pick(rng, [7, 8]), "seed": pick(rng, [0, 5]), "threads": 8, "keys": 3000, "stream": int(rng.integers(0, 2**31))}
     if ctx.shard == 0 or ctx.thorough:
         yield from gen_sentinel(rng, ctx)
         yield from gen_crafted(rng, ctx)
@@ -309,7 +343,9 @@ def gen_cases(ctx):
 
 def run_case(case, ctx, mon):
     t = case["type"]
-    if t == "history":
+    if t == "threads":
+        run_threads(case, ctx, mon)
+    elif t == "history":
         run_history(case, ctx, mon)
     elif t == "crafted":
         run_crafted(case, ctx, mon)
